@@ -54,3 +54,74 @@ package persistence
 //@   modifies heap(alloc), ghost obs.today_err, ghost obs.today
 //@   ensures obs.today_err == err && obs.today == st
 //@   ensures err == nil ==> st != nil
+
+// ---------------------------------------------------------------------------------------------
+// Interface contracts of the DAG store and of the history operations used when a DAG is renamed or deleted
+// (C18).  A global sequence number orders the store operations; each records its arguments.
+//@ ghost st.seq int
+//@ ghost dagst.find_calls int
+//@ ghost dagst.find_name string
+//@ ghost dagst.find_dag *dag.DAG
+//@ ghost dagst.find_err error
+//@ ghost dagst.renames int
+//@ ghost dagst.rename_seq int
+//@ ghost dagst.rename_old string
+//@ ghost dagst.rename_new string
+//@ ghost dagst.rename_err error
+//@ ghost dagst.creates int
+//@ ghost dagst.create_name string
+//@ ghost dagst.deletes int
+//@ ghost dagst.delete_seq int
+//@ ghost dagst.delete_name string
+//@ ghost dagst.updates int
+//@ ghost dagst.update_name string
+//@ ghost dagst.update_spec []byte
+//@ ghost histst.renames int
+//@ ghost histst.rename_seq int
+//@ ghost histst.rename_old string
+//@ ghost histst.rename_new string
+//@ ghost histst.removealls int
+//@ ghost histst.removeall_seq int
+//@ ghost histst.removeall_loc string
+//@ ghost histst.removeall_err error
+
+//@ fn (DAGStore).Find(s, name) (d, err)
+//@   props C18 C20
+//@   trusted
+//@   modifies heap(alloc), ghost dagst.find_calls, ghost dagst.find_name, ghost dagst.find_dag, ghost dagst.find_err
+//@   ensures dagst.find_calls == old(dagst.find_calls) + 1 && dagst.find_name == name && dagst.find_dag == d && dagst.find_err == err
+//@   ensures err == nil ==> d != nil
+//@ fn (DAGStore).Rename(s, oldID, newID) (err)
+//@   props C18 C20
+//@   trusted
+//@   modifies ghost st.seq, ghost dagst.renames, ghost dagst.rename_seq, ghost dagst.rename_old, ghost dagst.rename_new, ghost dagst.rename_err
+//@   ensures st.seq == old(st.seq) + 1 && dagst.renames == old(dagst.renames) + 1 && dagst.rename_seq == st.seq && dagst.rename_old == oldID && dagst.rename_new == newID && dagst.rename_err == err
+//@ fn (DAGStore).Create(s, name, spec) (id, err)
+//@   props C18 C20
+//@   trusted
+//@   modifies ghost st.seq, ghost dagst.creates, ghost dagst.create_name
+//@   ensures st.seq == old(st.seq) + 1 && dagst.creates == old(dagst.creates) + 1 && dagst.create_name == name
+//@ fn (DAGStore).Delete(s, name) (err)
+//@   props C18 C20
+//@   trusted
+//@   modifies ghost st.seq, ghost dagst.deletes, ghost dagst.delete_seq, ghost dagst.delete_name
+//@   ensures st.seq == old(st.seq) + 1 && dagst.deletes == old(dagst.deletes) + 1 && dagst.delete_seq == st.seq && dagst.delete_name == name
+//@ fn (DAGStore).UpdateSpec(s, name, spec) (err)
+//@   props C18 C20
+//@   trusted
+//@   modifies ghost st.seq, ghost dagst.updates, ghost dagst.update_name, ghost dagst.update_spec
+//@   ensures st.seq == old(st.seq) + 1 && dagst.updates == old(dagst.updates) + 1 && dagst.update_name == name && dagst.update_spec == spec
+//@ fn (DAGStore).GetSpec(s, name) (r, err)
+//@   props C18
+//@   trusted
+//@   noeffect
+//@ fn (HistoryStore).Rename(hs, oldName, newName) (err)
+//@   props C18
+//@   trusted
+//@   modifies ghost st.seq, ghost eff.hist, ghost histst.renames, ghost histst.rename_seq, ghost histst.rename_old, ghost histst.rename_new
+//@   ensures st.seq == old(st.seq) + 1 && histst.renames == old(histst.renames) + 1 && histst.rename_seq == st.seq && histst.rename_old == oldName && histst.rename_new == newName
+//@ fn (HistoryStore).RemoveAll(hs, dagFile) (err)
+//@   props C18
+//@   trusted
+//@   modifies ghost st.seq, ghost eff.hist, ghost histst.removealls, ghost histst.removeall_seq, ghost histst.removeall_loc, ghost histst.removeall_err
+//@   ensures st.seq == old(st.seq) + 1 && histst.removealls == old(histst.removealls) + 1 && histst.removeall_seq == st.seq && histst.removeall_loc == dagFile && histst.removeall_err == err
